@@ -18,7 +18,8 @@ package http2
 // VerifC13_history: histories from the initial state (OpenStream with/without buffered update, AdjustStream
 // in every stream state, CloseStream, pushes, Pops). VerifC13_fair: three streams opened with chosen
 // priorities and three frames each (one stream: 1-byte DATA, blocked or not at every Pop), then Pops mixed
-// with AdjustStream / CloseStream. VerifC13_parse: parseRFC9218Priority on a symbolic field value always yields a priority the
+// with AdjustStream / CloseStream. VerifC13_control: the same loaded state, then every sequence of control-frame
+// pushes and Pops: Pops that hand out a control frame must not disturb any of (1)-(2c). VerifC13_parse: parseRFC9218Priority on a symbolic field value always yields a priority the
 // scheduler can index with (u <= 7, i <= 1), and the scheduler accepts it.
 //
 // Sensitivity, confirmed with sh mut.sh (quick tier), writesched_priority_rfc9218.go:
@@ -26,11 +27,14 @@ package http2
 //   Pop, incremental branch: `ws.heads[u][i] = q.next` -> `= q` (no round robin)       -> VerifC13_fair: (2b) violated
 //   OpenStream: `if streamID == ws.priorityUpdateBuf.streamID` -> `if false` (buffered update ignored)
 //                                                                                       -> VerifC13_history: violated
+//   Pop: prioritizeIncremental toggle hoisted above the control-queue return (seed C13-C)  -> VerifC13_control: (2c) violated
+//                                                                                       (plain violation: 0 counted toggles)
 
 func init() {
 	vfRegister("VerifC13_history", VerifC13_history)
 	vfRegister("VerifC13_fair", VerifC13_fair)
 	vfRegister("VerifC13_parse", VerifC13_parse)
+	vfRegister("VerifC13_control", VerifC13_control)
 }
 
 const c13KeyToggle = "C13-rfc9218-toggle-parity"
@@ -47,11 +51,13 @@ type c13state struct {
 	lastBoth  [8]bool  //      ... and both classes were sendable then
 	lastClass [8]uint8 //      ... and this class was served
 	toggles   [8]int   //      Pop calls that toggled prioritizeIncremental since then
+	ctlSince  [8]bool  //      a Pop returned a control frame since then (reach marker only)
 	seen      c13seen
 }
 
 type c13seen struct {
 	buffered, preempt, sticky, roundRobin, alternate, bothTwice bool
+	control, alternateAcrossControl                             bool
 }
 
 func c13attach(m *c12model) *c13state {
@@ -113,7 +119,16 @@ func c13sendable(p c12pre) bool {
 func (c *c13state) onPop(si int, control bool, pre []c12pre) {
 	m := c.m
 	if control {
-		return // control frames are returned before prioritizeIncremental is touched
+		// A Pop that hands out a control frame serves no stream: it must leave the fairness state of every
+		// urgency alone (the statement bounds the wait of a sendable stream in Pops that serve its urgency, and
+		// control frames - SETTINGS/PING acks, WINDOW_UPDATE, RST_STREAM - are written between DATA frames all the
+		// time). It is therefore NOT counted in toggles: if a control frame between two Pops of an urgency makes
+		// the same class come out twice, (2c) below fails as a plain violation, outside the known finding.
+		c.seen.control = true
+		for v := range c.ctlSince {
+			c.ctlSince[v] = true
+		}
+		return
 	}
 	if si < 0 {
 		for u := range c.toggles {
@@ -185,7 +200,11 @@ func (c *c13state) onPop(si int, control bool, pre []c12pre) {
 		vfAssertKF(inc != c.lastClass[u], "both classes of one urgency sendable at two successive Pops of that urgency: the same class is served twice (the other class can starve)",
 			c13KeyToggle, c.toggles[u]%2 == 1)
 		c.seen.alternate = true
+		if c.ctlSince[u] {
+			c.seen.alternateAcrossControl = true
+		}
 	}
+	c.ctlSince[u] = false
 	c.lastValid[u], c.lastBoth[u], c.lastClass[u] = true, both, inc
 	for v := range c.toggles {
 		c.toggles[v]++
@@ -271,6 +290,48 @@ func VerifC13_fair() {
 	}
 	m.drain()
 	c.reach()
+	m.reachPops()
+	vfReach("end")
+}
+
+// Control frames between the stream frames: 3 loaded streams as in VerifC13_fair, then every sequence of
+// {Push(control frame or RST_STREAM), Pop}. A Pop that returns a control frame serves no stream, so all the
+// oracles above must hold across it unchanged: urgency order, stickiness of the non-incremental stream, round
+// robin, and the alternation of the two classes of one urgency (a WINDOW_UPDATE or a PING ack written between
+// two DATA frames must not decide which class is served next).
+func VerifC13_control() {
+	cfg := c12cfg{kind: c12RFC9218, nstreams: 3, k: c12k(6, 8), dataLens: nil, adjust: 0, maxClose: 0, inOrder: true, det: true,
+		noCtl: false, noHdr: true, boolWin: true, prios: c13prios()}
+	m := c12new(cfg, newPriorityWriteSchedulerRFC9218())
+	c := c13attach(m)
+	p := 0
+	for i := range m.ss {
+		p += vfChoice("prio", len(m.prios)-p) // multiset of priorities, see VerifC13_fair
+		m.do(c12op{c12OpOpen, i, p})
+	}
+	// blockable == len(ss): every stream is always sendable
+	blockable := vfChoice("blockable-stream", len(m.ss)+1)
+	for i := range m.ss {
+		for j := 0; j < 3; j++ {
+			if i == blockable {
+				m.do(c12op{c12OpData, i, 1})
+			} else {
+				m.do(c12op{c12OpHdr, i, 0})
+			}
+		}
+	}
+	for step := 0; step < m.k; step++ {
+		ops := m.enabled() // {Push(control), Pop}: all streams are open, nothing else is offered
+		m.do(ops[vfChoice("op", len(ops))])
+	}
+	m.drain()
+	c.reach()
+	if c.seen.control {
+		vfReach("pop-control")
+	}
+	if c.seen.alternateAcrossControl {
+		vfReach("classes-alternate-across-control-frame")
+	}
 	m.reachPops()
 	vfReach("end")
 }
